@@ -146,7 +146,8 @@ and itx (x : sx) : iT =
   | L [A "IMap"; f; i] -> IMap (fn1x f, itx i)
   | L [A "IMapWith"; f; i] -> IMapWith (mwx f, itx i)
   | L [A "IOrNot"; a] -> IOrNot (gx a)
-  | L [A "IRepCfg"; a; lo; hi] -> IRepCfg (gx a, natx lo, optnat hi)
+  | L [A "IRepCfg"; a; lo; hi] -> IRepCfg (gx a, natx lo, optnat hi, O)
+  | L [A "IRepCfg"; a; lo; hi; ck] -> IRepCfg (gx a, natx lo, optnat hi, natx ck)
   | _ -> failwith "iter"
 
 (* size of a grammar term, for the fuel *)
